@@ -593,9 +593,10 @@ func body(w *runner.W) {
 			big.Do(EditCase{Size: size, Edits: []Edit{e}, Rename: n%2 == 0, Comp: "none"})
 		}
 		// fresh runs longer than MaxDataOp followed by old data (buffer wrap, then re-sync)
-		runs := []int{M - 1, M, M + 1, M + B + 1, 2*M + 1}
+		// (two full data operations: the first may leave through the flush before a buffer wrap)
+		runs := []int{M - 1, M, M + 1, M + B + 1, 2*M + 1, 2*M + B + 12345, 3*M + 1}
 		if w.Quick() {
-			runs = []int{M + 1}
+			runs = []int{M - 1, M, M + 1, 2*M + 1, 2*M + B + 12345}
 		}
 		for _, L := range runs {
 			for _, o := range []int{0, B + 1} {
